@@ -323,6 +323,10 @@ func c14Atoms() []c14Atom {
 		// bound class
 		add(bd(":", "class", c14EVar("v$")), "v$", tvS("b1 b2"))
 		add(bd(":", "class", c14EVar("v$")), "v$", tvS(""))
+		// a bound class that is not a string: its string form is the class
+		add(bd(":", "class", c14EVar("v$")), "v$", tvI(5))
+		add(bd(":", "class", c14EVar("v$")), "v$", tvB(true))
+		add(bd(":", "class", c14EVar("v$")), "v$", TV{K: "NamedString", S: "ns1"})
 		ent := func(k, q string, e c14Expr) c14Ent { return c14Ent{Key: k, Q: q, E: e} }
 		add(c14Attr{K: "cobj", P: ":", N: "class", Ents: []c14Ent{ent("on", "", *c14EVar("v$")), ent("off", "", *c14EVar("w$"))}}, "v$", tvB(true), "w$", tvB(false))
 		add(c14Attr{K: "cobj", P: ":", N: "class", Nl: true, Ents: []c14Ent{ent("is-on", "'", *c14EVar("v$")), ent("off", "", *c14EVar("w$")), ent("third", "", c14Lit(tvI(1)))}}, "v$", tvI(3), "w$", tvS(""))
